@@ -141,6 +141,10 @@ impl Base64 {
 
         let number_of_equal_signs = text.matches(SYMBOL.equals).count();
 
+        if number_of_equal_signs > 2 {
+            return Err("unexpected number of padding characters".to_string());
+        }
+
         if number_of_equal_signs == 2 {
             let boxed_first_byte = text.chars().nth(0);
             if boxed_first_byte.is_none() {
